@@ -6,14 +6,31 @@ from suites import serde as S
 
 
 def exn_mechanism(it, orig, back):
-    """Why an exception did not keep (type, message): structural finding key or None when the
-    class is outside the property's domain (not importable by its qualified name)."""
-    imp, ctor, nw = S.exn_behaviour(it, type(orig), str(orig))
+    """Why an exception did not keep (type, message): the structural finding key, or None when the
+    class is outside the property's domain (not importable by its qualified name).  A known key is
+    returned only when what was read back is exactly what that mechanism produces; anything else
+    is `C18/exception-not-kept`."""
+    cls, msg = type(orig), str(orig)
+    imp, ctor, nw = S.exn_behaviour(it, cls, msg)
     if not imp:
         return None
+    got = (type(back), str(back))
     if ctor[0] == 0:
-        return "C18/exception-message-changed-by-constructor"
-    return "C18/exception-type-lost-constructor-needs-state"
+        rebuilt = str(cls(msg))
+        if rebuilt != msg and got == (cls, rebuilt):
+            return "C18/exception-message-changed-by-constructor"
+        return "C18/exception-not-kept"
+    new_ok = False
+    if ctor[0] == 2:
+        try:
+            x = cls.__new__(cls)
+            x.args = (msg,)
+            new_ok = str(x) == msg
+        except Exception:      # noqa: BLE001
+            new_ok = False
+    if not new_ok and got == (Exception, msg):
+        return "C18/exception-type-lost-constructor-needs-state"
+    return "C18/exception-not-kept"
 
 
 def find_exn(ev, path):
@@ -26,6 +43,8 @@ def find_exn(ev, path):
 
 def monitor_event(it, codec, orig, back):
     """C18 on one real round trip.  Returns None, or (key, text), or ("skip", why)."""
+    if isinstance(back, S.EncodeFailed):
+        return ("C18/encode-raises-%s" % codec, "writing raised %s" % str(back)[:160])
     if isinstance(back, BaseException):
         return ("C18/decode-raises-%s" % codec, "reading back raised %s: %s" % (type(back).__name__, str(back)[:120]))
     a, b = S.canon_event(orig), S.canon_event(back)
@@ -43,6 +62,8 @@ def monitor_event(it, codec, orig, back):
 
 
 def monitor_tick(it, orig, back):
+    if isinstance(back, S.EncodeFailed):
+        return ("C18/encode-raises-tick", "writing the tick raised %s" % str(back)[:160])
     if isinstance(back, BaseException):
         return ("C18/decode-raises-tick", "reading the tick back raised %s: %s" % (type(back).__name__, str(back)[:120]))
     if type(orig) is not type(back):
@@ -124,9 +145,10 @@ def run(ctx, only=None):
                 registry = rng.sample([c for c in S.EVENT_CLASSES if c is not type(ev)], 3)
             with_q = not (type(ev) in registry and rng.random() < 0.3)
             wire, back = S.real_env_roundtrip(ev, registry, with_q)
-            wire.pop("types", None)
-            if wire.get("qualified_name") is None:
-                wire["qualified_name"] = ""
+            if wire is not None:
+                wire.pop("types", None)
+                if wire.get("qualified_name") is None:
+                    wire["qualified_name"] = ""
             ct, exns = tables(it, [ev, back], registry)
             xt = S.g_xt(it, exns)
             reg = S.glist(str(S.CID[c]) for c in registry)
@@ -136,8 +158,8 @@ def run(ctx, only=None):
                                                  back_term(it, back, S.g_event))
             else:
                 # (encoding without a qualified name is not modelled: compare the decode side only)
-                e = "(let w := %s in if otval_eqb (env_decode %s %s %s w) %s then 0 else 2)" % (
-                    S.g_json(it, wire), ct, xt, reg, back_term(it, back, S.g_event))
+                e = "dcase %s %s %s %s %s %s" % (ct, xt, reg, model_ev, S.g_json(it, wire),
+                                                 back_term(it, back, S.g_event))
             r = monitor_event(it, "envelope", ev, back)
             stats["env_cases"] += 1
             stats["env_registry_hit"] += type(ev) in registry
@@ -156,6 +178,8 @@ def run(ctx, only=None):
             stats["tick_cases"] += 1
             ev = tick
             codec = "tick"
+        if wire is None:
+            e = "0"          # nothing to compare: the real encoder raised (reported by the monitor)
         exprs.append(e)
         carried = [x for _, x in S.tick_events(ev)] if codec == "tick" else [ev]
         evs = [x for x in carried if isinstance(x, S.Event)]
@@ -187,8 +211,11 @@ def run(ctx, only=None):
             else:
                 mon.append((r, desc))
     res = ctx.run_cases("serde", S.HEADER, exprs, shard=150)
-    badi = [i for i, z in enumerate(res) if z != 0]
-    ctx.suite("serde", cases=len(exprs), disagreements=len(badi), **stats)
+    badi = [i for i, z in enumerate(res) if z & 3]
+    in_domain = sum(1 for z in res if not z & 8)
+    dom_fail = [i for i, z in enumerate(res) if z & 4]
+    ctx.suite("serde", cases=len(exprs), disagreements=len(badi), in_theorem_domain=in_domain,
+              in_domain_not_restored=len(dom_fail), **stats)
     ctx.suite("serde.monitor", failures=len(mon), keys=sorted({r[0] for r, _ in mon}))
     ctx.disagreements += len(badi)
     ctx.disagreements_checked = len(badi)
@@ -203,6 +230,12 @@ def run(ctx, only=None):
                     dict(kind="implementation-monitor", case=desc,
                          replay_hint="the `repr` field is the event/tick; feed it to the codec named in `codec`"))
         unknown += len(ctx.violations) - before
+    if dom_fail and not unknown:
+        # a value inside the hypotheses of C18_*_roundtrip that the real code did not restore, and the
+        # monitor did not flag: report with the concrete case
+        ctx.violation("C18 fails on the implementation: a value inside the theorem's domain is not restored",
+                      dict(kind="in-domain-check", case=meta[dom_fail[0]]), found_input=True)
+        unknown += 1
     if badi and not unknown:
         ctx.violation("model/implementation disagreement in suite serde (no property-level failing input found)",
                       dict(suite="serde", theorem="C18_json_roundtrip / C18_envelope_roundtrip / C18_tick_roundtrip "
@@ -212,6 +245,7 @@ def run(ctx, only=None):
     elif badi:
         ctx.notes.append("%d model/implementation disagreements accompany the monitor failures" % len(badi))
     if not badi and not unknown:
+        ctx.require_coverage("serde", "in_theorem_domain", in_domain, len(exprs) // 2)
         for c, m in (("json_cases", 100), ("env_cases", 50), ("tick_cases", 50), ("stop_with_dyn", 20),
                      ("nested_events", 10), ("exn_fields", 30), ("exn_ctor_other", 3), ("exn_transform", 3),
                      ("result_nonnull", 20), ("dyn_reserved_key", 10), ("env_registry_hit", 10)):
